@@ -13,7 +13,7 @@
  *   - an empty-handed return of a polling pool happens only after the virtual clock advanced by more than the budget
  *     (pop_timedwait: beyond the absolute time); FIFO_WAIT: before its deadline only if a push to that pool
  *     overlapped the call (it was signalled, then another consumer may have taken the unit);
- *   - bounded time: a solo blocking pop returns within budget + 3 us of virtual time; the whole run within the sum of
+ *   - bounded time: a solo blocking pop returns within budget + one sleep + 3 us of virtual time; the whole run within the sum of
  *     all budgets and sleeps;
  *   - FIFO_WAIT wake-up: a solo consumer that gets a unit pushed well before its deadline gets it before the deadline. */
 #define _GNU_SOURCE
@@ -57,6 +57,8 @@ static int timed_active;
 static long timed_entries;
 static double budget_sum; /* seconds: every budget / sleep / clock tick this scenario asked for */
 static int n_empty, n_got, n_solo_checked, n_wake_checked;
+static double gran = 100e-9; /* virtual time one nanosleep(100 ns) really takes under vsched (it may model the timer slack) */
+static long gran_ns = 100;
 
 static void relax(actor *a)
 {
@@ -160,7 +162,7 @@ static void producer_body(actor *a)
             long us = (long[]){ 3, 12, 40 }[sc_rnd(3)];
             int act = timed_active;
             long me = timed_enter();
-            budget_sum += 1e-6 * (double)us;
+            budget_sum += (1e-6 * (double)us > gran ? 1e-6 * (double)us : gran);
             usleep((useconds_t)us);
             timed_leave(me, act);
         }
@@ -180,7 +182,9 @@ static void consumer_body(actor *a)
         ABT_pool_context ctx = tail ? ABT_POOL_CONTEXT_OWNER_SECONDARY : ABT_POOL_CONTEXT_OP_POOL_OTHER;
         /* budgets in ns: polling pools compare doubles, keep them 50 ns away from every value the virtual clock can show
          * (multiples of 100 ns); FIFO_WAIT hands the deadline to the (virtual) kernel, keep the clock on multiples of 100 */
-        long bud = (long[]){ 5000, 20000, 150000 }[sc_rnd(3)] + (kind == K_FIFO_WAIT ? 0 : 50);
+        long g = gran_ns > 2500 ? gran_ns : 2500; /* small: shorter than most gaps; medium / large: several sleeps */
+        long bud = (long[]){ 5000, 8 * g, 60 * g }[sc_rnd(3)] + (kind == K_FIFO_WAIT ? 0 : 50);
+        double over = (kind == K_FIFO_WAIT ? 0.0 : gran) + 3e-6; /* a solo call is back this long after its budget at the latest */
         ABT_thread th = ABT_THREAD_NULL;
         int u;
         if (op < 8) {
@@ -194,12 +198,12 @@ static void consumer_body(actor *a)
             inside_call_id[k] = id;
             double limit; /* virtual time by which a solo call must be back */
             if (op < 5) {
-                budget_sum += 1e-9 * (double)bud + 4e-6;
+                budget_sum += 1e-9 * (double)bud + gran + 4e-6;
                 vs_log("apiCall popWait PW%d %ld %d", k, bud, tail);
                 ABT_OK(ABT_pool_pop_wait_thread_ex(PL[k], &th, 1e-9 * (double)bud, ctx));
                 u = unit_of(th);
                 vs_note("apiRet popWait PW%d %d", k, u);
-                limit = t0 + 1e-9 * (double)bud + 3e-6;
+                limit = t0 + 1e-9 * (double)bud + over;
                 if (u == -1) {
                     n_empty++;
                     if (kind != K_FIFO_WAIT)
@@ -217,7 +221,7 @@ static void consumer_body(actor *a)
                 /* rounded up to the next multiple of 100 ns: the truncations of the clock value do not accumulate */
                 long long abs_ns = (((long long)ts.tv_sec * 1000000000LL + ts.tv_nsec + 99) / 100) * 100 + bud;
                 double abs_s = (double)(abs_ns / 1000000000LL) + 1e-9 * (double)(abs_ns % 1000000000LL);
-                budget_sum += 1e-9 * (double)bud + 5e-6;
+                budget_sum += 1e-9 * (double)bud + gran + 5e-6;
                 ABT_unit unit = ABT_UNIT_NULL;
                 vs_log("apiCall popTimedwait PW%d %lld 0", k, abs_ns);
                 ABT_OK(ABT_pool_pop_timedwait(PL[k], &unit, abs_s));
@@ -225,7 +229,7 @@ static void consumer_body(actor *a)
                     ABT_OK(ABT_unit_get_thread(unit, &th));
                 u = unit_of(th);
                 vs_note("apiRet popTimedwait PW%d %d", k, u);
-                limit = abs_s + 3e-6;
+                limit = abs_s + over;
                 tail = 0;
                 if (u == -1) {
                     n_empty++;
@@ -246,14 +250,14 @@ static void consumer_body(actor *a)
                 n_solo_checked++;
                 VSA_CHECK(t1 <= limit, "blocking pop on PW%d (budget %ld ns) took %.0f ns of virtual time although nobody else "
                           "used the clock", k, bud, 1e9 * (t1 - t0));
-                if (u >= 0 && kind == K_FIFO_WAIT && u_solo_call[u] == id && u_pushret[u] < limit - 3e-6 - 2e-6) {
+                if (u >= 0 && kind == K_FIFO_WAIT && u_solo_call[u] == id && u_pushret[u] < limit - over - 2e-6) {
                     /* the unit was pushed while this very call was the only one inside the pool, well before its deadline:
                      * either the call had not slept yet, or the push woke it; time can only have reached the deadline
                      * (the sole pending one) if it was still asleep then */
                     n_wake_checked++;
-                    VSA_CHECK(t1 < limit - 3e-6, "FIFO_WAIT PW%d: U%d was pushed %.0f ns before the deadline of the only waiting "
+                    VSA_CHECK(t1 < limit - over, "FIFO_WAIT PW%d: U%d was pushed %.0f ns before the deadline of the only waiting "
                               "consumer, which nevertheless slept until its deadline (lost wake-up)", k, u,
-                              1e9 * (limit - 3e-6 - u_pushret[u]));
+                              1e9 * (limit - over - u_pushret[u]));
                 }
             }
         } else {
@@ -269,7 +273,7 @@ static void consumer_body(actor *a)
                     /* do not spin on empty pools for ever: let time pass */
                     int act = timed_active;
                     long me = timed_enter();
-                    budget_sum += 2e-6;
+                    budget_sum += (2e-6 > gran ? 2e-6 : gran);
                     usleep(2);
                     timed_leave(me, act);
                 }
@@ -326,6 +330,17 @@ int main(int argc, char **argv)
     /* one execution stream: ULT actors share it (a ULT that sleeps in a blocking pop stalls the others, as it does for
      * real), external actors are OS threads; a second, idle stream would only burn the step budget polling its pool */
     sc_streams(1, ABT_SCHED_BASIC);
+    {
+        /* how long does the pools' nanosleep(100 ns) take in virtual time? (vsched may round short sleeps up) */
+        struct timespec ts = { 0, 100 };
+        double a0 = vs_now();
+        nanosleep(&ts, NULL);
+        gran_ns = ((long)((vs_now() - a0) * 1e9 + 50.0) / 100) * 100;
+        if (gran_ns < 100)
+            gran_ns = 100;
+        gran = 1e-9 * (double)gran_ns;
+        vs_note("sleep granule %ld ns", gran_ns);
+    }
     double T0 = vs_now();
 
     npools = kinds == 3 ? 3 : 1;
